@@ -17,7 +17,7 @@ PROP = {
  "level": "proof",
  "level_text": "pick_binding (service = assertion_consumer_service) and response_args (AuthnRequest) are verified against the statement: the destination is one of the endpoints the metadata store returns for the requester, a supplied URL is honoured only when equal to a registered one, no destination for an unknown requester (the store's errors propagate). The metadata lookups themselves are assumed here by contract (C16).",
  "not_decided": [
-  "other services (single_logout_service, manage_name_id_service): same code path, not instantiated as variants",
+  "request classes other than AuthnRequest, LogoutRequest, ManageNameIDRequest and AttributeQuery (pick_binding and response_args are instantiated as constant-service / constant-class variants for those four; AuthnQuery, AuthzDecisionQuery, NameIDMappingRequest, AssertionIDRequest go through the same code with another service constant and are not instantiated)",
   "index-based selection: dead for AuthnRequest because the _url attribute always exists (observation)"
  ]
 }
